@@ -185,16 +185,38 @@ impl Model for M {
         W { rt: Rt::new() }
     }
     fn n_inits(&self) -> usize {
-        1
+        2
     }
-    fn init_name(&self, _i: usize) -> String {
-        "live links, empty tracker".into()
+    fn init_name(&self, i: usize) -> String {
+        ["live links, empty tracker", "live links whose windows were walked to the floor region by real NAK runs (1000, 1037, 1100, ...), empty tracker"][i].into()
     }
-    fn init(&self, _w: &mut W, _i: usize) -> St {
+    fn init(&self, _w: &mut W, i: usize) -> St {
         set_now(T0);
+        let mut conns: Vec<SrtlaConnection> = (0..self.links).map(|l| live_conn(l, T0)).collect();
+        if i == 1 {
+            for (l, c) in conns.iter_mut().enumerate() {
+                // link 0: 190 charged NAKs -> 1000; link 1: 190 NAKs then 37 global +1 -> 1037; others: 189 NAKs -> 1100
+                let naks = if l >= 2 { 189 } else { 190 };
+                for k in 0..naks {
+                    let q = 500_000 + (l as i32) * 1000 + k;
+                    c.register_packet(q, T0);
+                    c.handle_nak(q, T0);
+                }
+                if l == 1 {
+                    for _ in 0..37 {
+                        c.handle_srtla_ack_global();
+                    }
+                }
+            }
+            let want = [1000, 1037, 1100, 1100];
+            for (l, c) in conns.iter().enumerate() {
+                assert_eq!(c.window, want[l.min(3)], "scripted start state: link {l} window");
+                assert!(c.packet_log.is_empty());
+            }
+        }
         St {
             now: T0,
-            conns: (0..self.links).map(|l| live_conn(l, T0)).collect(),
+            conns,
             tracker: Arc::new(SequenceTracker::new()),
             held: vec![BTreeSet::new(); self.links],
             queued: vec![Vec::new(); self.links],
